@@ -86,6 +86,9 @@ class P(StreamProperty):
             cfg = gens.Cfg('ldpc', k, r, N1=rng.choice([3, 4, 5, 6]) if r >= 6 else 3, seed=rng.randint(1, 2 ** 31 - 2))
             sub = gens.ldpc_loss_subset(rng, cfg, around_threshold=(j % 3 != 0))
             cases.append(self.mk('b%d' % j, cfg, gens.random_order(rng, sub, 0.15), matrix=(cfg.n <= 80)))
+        # heavy columns (small k, N1 up to n-k), repairs first then a source symbol: one call brings many equations to one unknown
+        for j, (cfg, order) in enumerate(gens.dense_column_configs(rng, 40 if tier == 'quick' else 400)):
+            cases.append(self.mk('hc%d' % j, cfg, order, matrix=(j % 2 == 0)))
         return cases
 
     def extra_stats(self, cases, res):
